@@ -33,6 +33,33 @@ MODULE = 'supp/module.py'
 SERVER = 'supp/server.py'
 
 
+def _api_calls(tree, srv, fn, bound, inside, depth):
+    """(call, inside check_changes?) for every call of the assistant / linter API made by fn or by the helpers of server.py it calls
+    (methods of Server, module-level functions); an API function handed to a helper as an argument is followed into the helper."""
+    def is_api_ref(e):
+        return (isinstance(e, ast.Attribute) and isinstance(e.value, ast.Name) and e.value.id in ('assistant', 'linter')) or \
+            (isinstance(e, ast.Name) and e.id in bound)
+    for c in ast.walk(fn):
+        if not isinstance(c, ast.Call):
+            continue
+        here = inside or any(any('check_changes()' in unparse(it.context_expr) for it in w.items) for w in enclosing_withs(c, fn))
+        if is_api_ref(c.func):
+            yield c, here
+            continue
+        helper = None
+        if isinstance(c.func, ast.Name):
+            helper = next((f for f in tree.body if isinstance(f, ast.FunctionDef) and f.name == c.func.id), None)
+            params = [a.arg for a in helper.args.args] if helper else []
+        elif isinstance(c.func, ast.Attribute) and isinstance(c.func.value, ast.Name) and c.func.value.id == 'self':
+            helper = next((f for f in srv.body if isinstance(f, ast.FunctionDef) and f.name == c.func.attr), None)
+            params = [a.arg for a in helper.args.args][1:] if helper else []
+        if helper is None or helper is fn or depth >= 3:
+            continue
+        nb = {p for p, a in zip(params, c.args) if is_api_ref(a)} | {k.arg for k in c.keywords if k.arg and is_api_ref(k.value)}
+        for x in _api_calls(tree, srv, helper, frozenset(nb), here, depth + 1):
+            yield x
+
+
 def run(repo, res):
     facts = get_facts(repo)
     cg = get_callgraph(repo)
@@ -148,10 +175,8 @@ def run(repo, res):
     for m in srv.body:
         if isinstance(m, ast.FunctionDef) and m.name in ('assist', 'location', 'lint'):
             nreq += 1
-            api = [c for c in ast.walk(m) if isinstance(c, ast.Call) and isinstance(c.func, ast.Attribute)
-                   and isinstance(c.func.value, ast.Name) and c.func.value.id in ('assistant', 'linter')]
-            ok = bool(api) and all(any(any('check_changes()' in unparse(it.context_expr) for it in w.items)
-                                       for w in enclosing_withs(c, m)) for c in api)
+            api = list(_api_calls(repo.tree(SERVER), srv, m, frozenset(), False, 0))
+            ok = bool(api) and all(inside for _c, inside in api)
             res.check('C09-R2', 'Server.%s inside check_changes' % m.name, ok, SERVER, m.lineno,
                       'Server.%s must call the API inside `with self.project.check_changes()`' % m.name,
                       sample='Server.%s wraps the API call in check_changes()' % m.name)
